@@ -66,9 +66,12 @@ TRemove ==
                             \o ObsChecks(amap')), "BAD")
   /\ drift' = Note(drift, First(DriftChecks), "DRIFT")
 
+(* a panic raised by a legal call sequence is behaviour of the real code (driver: guarded()) *)
+TPanic == /\ l <= N /\ Ev.e = "Panic" /\ l' = l + 1 /\ UNCHANGED <<vars, drift>>
+          /\ bad' = Note(bad, "C20:the call panicked: " \o Ev.msg \o " (" \o Ev.where \o ")", "BAD")
 TDone == l = N + 1 /\ UNCHANGED tvars
 
-TNext == TReset \/ TUpdate \/ TRemove \/ TDone
+TNext == TReset \/ TUpdate \/ TRemove \/ TPanic \/ TDone
 TSpec == TInit /\ [][TNext]_tvars
 
 Good == bad = ""
